@@ -11,6 +11,7 @@ import (
 	"math/big"
 	"math/rand"
 	"os"
+	"os/exec"
 	"sort"
 	"strconv"
 	"strings"
@@ -170,6 +171,24 @@ func runLifecycle(b Beh, seed int64) ([]J, error) {
 			}
 			sw.Switch.On.SetValue(!sw.Switch.On.GetValue())
 			sw.Info.Name.SetValue(fmt.Sprintf("renamed-%d", rng.Intn(1000)))
+		case "killstart":
+			// the (first) start runs in a process of its own which is killed at a crash point of its storage writes
+			if tr != nil {
+				o["skipped"] = true
+				break
+			}
+			self, err := os.Executable()
+			if err != nil {
+				return nil, err
+			}
+			k := 1 + rng.Intn(14)
+			if n, err := strconv.Atoi(strings.TrimPrefix(s.X, "k")); err == nil && n > 0 {
+				k = n
+			}
+			cmd := exec.Command(self, "storagechild", "--extra", "transport|"+dir+"|Lifecycle")
+			cmd.Env = append(os.Environ(), fmt.Sprintf("VERIF_CRASH_AT=%d", k))
+			cmd.Run()
+			o["point"] = k
 		case "pair":
 			if tr == nil {
 				o["skipped"] = true
